@@ -68,6 +68,10 @@ def strategy(tier):
       (2, st.tuples(st.just('twin'), st.integers(0, 5)).map(list)),
       # the balancer is closed and a new one is opened on the same provider object
       (1, st.just(['reopen_balancer'])),
+      # the data of the watched path itself changes (no membership change)
+      (1, st.just(['set_parent'])),
+      # the name-keyed consumer stops its server set and starts a new one with the same callbacks
+      (1, st.just(['restart_consumer'])),
   ]
   return st.fixed_dictionaries({
       'initial_parent': st.booleans(),
@@ -107,7 +111,7 @@ def execute(plan):
         self.__dict__.setdefault('vf_reported', []).append(None if stat is None else stat.czxid)
         return ServerSet._data_changed(self, data, stat)
 
-    ss = ObservedServerSet(zk, PATH, cb('join'), cb('leave'), lambda n: n.startswith('member_'))
+    sss = [ObservedServerSet(zk, PATH, cb('join'), cb('leave'), lambda n: n.startswith('member_'))]
     lb = None
     zkp = None
     if plan['with_balancer']:
@@ -154,6 +158,9 @@ def execute(plan):
       where = '(step %d: %r)' % (step, op)
       held = set()
       for kind, name in log:
+        if kind == 'restart':
+          held = set()      # a new server set reports everything that is present as joining
+          continue
         if kind == 'join':
           if name in held:
             raise Violation(ID, 'double-join', '%s reported as joining twice without a leave %s; log %r' % (name, where, log[-12:]))
@@ -166,7 +173,7 @@ def execute(plan):
       if held != want:
         missing, extra = sorted(want - held), sorted(held - want)
         key = 'stale-member' if extra and not missing else ('missing-member' if missing and not extra else 'membership-mismatch')
-        unobs = unobserved_incarnations(ss)
+        unobs = unobserved_incarnations(sss[0])
         if extra and not missing and unobs and all(any(n in i['children'] for i in unobs) for n in extra):
           key = 'unobserved-path-incarnation'
         raise Violation(ID, key, 'consumer holds %r, tree has %r %s; last events %r; callback errors %r' % (
@@ -225,6 +232,16 @@ def execute(plan):
       elif k == 'other':
         p = PATH + '/other_1'
         (zk.z_create(p, b'x') if op[1] else zk.z_delete(p))
+      elif k == 'set_parent':
+        if zk.z_set(PATH, b'v%d' % step):
+          flags.add('watched_path_data_changed')
+      elif k == 'restart_consumer':
+        advance(0.03)
+        sss[0].stop()
+        settle()
+        log.append(('restart', None))
+        sss[0] = ObservedServerSet(zk, PATH, cb('join'), cb('leave'), lambda n: n.startswith('member_'))
+        flags.add('consumer_restarted_with_same_callbacks')
       elif k == 'reopen_balancer':
         if lbs[0] is not None:
           advance(0.03)
@@ -270,7 +287,7 @@ def execute(plan):
       else:
         raise HarnessError(op)
     check(len(plan['ops']), ['final'])
-    ss.stop()
+    sss[0].stop()
     if lbs[0] is not None:
       lbs[0].Close()
     settle()
